@@ -9,80 +9,101 @@
 (*   - inside Trace_MapQueue.tla (B1/B2: recorded push/pop streams of the  *)
 (*     real queues are folded with them).                                  *)
 (*                                                                         *)
-(*   p.now      stamp of the last lane write                               *)
-(*   p.hist[k]  the values key k held: <<[t |-> stamp, v |-> value]>>,     *)
-(*              value 0 = absent; starts with [t |-> 0, v |-> 0]           *)
-(*   p.clears   stamps of the lane's clear operations                      *)
-(*   p.ref      the lane's map now (0 = absent)                            *)
-(*   p.cons[c]  a consumer: active, rep (its replica = fold of what it     *)
-(*              received), seen[k] (stamp of the youngest value of k it    *)
-(*              can have seen), lastClr, ok (nothing rejected so far)      *)
+(*   p.ref      the lane's map now (0 = no entry)                          *)
+(*   p.anyClr   the lane has been cleared at least once                    *)
+(*   p.cons[c]  a consumer:                                                *)
+(*     active   it is a subscriber (linked)                                *)
+(*     rep      its replica = fold of what it received                     *)
+(*     adm[k]   the values key k held from the youngest value c can have   *)
+(*              seen (the head) up to now, oldest first; 0 = no entry,     *)
+(*              CLR = no entry because of a lane clear.  For a consumer    *)
+(*              that is not a subscriber: just the current value.          *)
+(*     pend     lane clears since c subscribed that c has not received     *)
+(*     ok       nothing rejected so far                                    *)
 (*                                                                         *)
 (* What P demands (and no more):                                           *)
 (*  (ii)  per key, the values received are an in-order subsequence of the  *)
-(*        values the key held (a received remove = the key being absent).  *)
-(*        Any amount of coalescing - including none - is allowed, a        *)
-(*        repeated delivery of the same value is tolerated.                *)
+(*        values the key held while c was subscribed, starting with the    *)
+(*        value at subscription (a received remove = the key having no     *)
+(*        entry).  Any amount of coalescing - including none - is allowed, *)
+(*        a repeated delivery of the same value is tolerated.              *)
 (*  (iii) a received clear is one of the lane's clears, in order, and no   *)
-(*        value older than that clear is received after it.                *)
-(*  (i)   at quiescence every active consumer's replica equals the lane's  *)
-(*        map (this is what catches a lost clear / remove / last update,   *)
+(*        value older than that clear is received after it.  (A value      *)
+(*        younger than a clear may arrive before the clear does.)          *)
+(*  (i)   at quiescence every subscriber's replica equals the lane's map   *)
+(*        (this is what catches a lost clear / remove / last update,       *)
 (*        merged distinct keys, split Recon-equal keys).                   *)
-(* Matching is greedy (earliest admissible write): every constraint is a   *)
+(* Matching is greedy (earliest admissible value): every constraint is a   *)
 (* lower bound on later matches, so the greedy choice accepts whenever any *)
-(* choice does.                                                            *)
+(* choice does.  Received prefixes are forgotten, so the state is bounded  *)
+(* by how far the slowest subscriber lags, not by the length of the run.   *)
 (***************************************************************************)
-EXTENDS Naturals, Sequences, FiniteSets
+EXTENDS Integers, Sequences, FiniteSets
 
-PMax(a, b) == IF a > b THEN a ELSE b
+CLR == -1
+PZero(keys) == [k \in keys |-> 0]
 
-PFreshCons(keys, act) ==
-    [active |-> act, rep |-> [k \in keys |-> 0], seen |-> [k \in keys |-> 0], lastClr |-> 0, ok |-> TRUE]
+PCons(keys, act, ref) ==
+    [active |-> act, rep |-> PZero(keys), adm |-> [k \in keys |-> << ref[k] >>], pend |-> 0, ok |-> TRUE]
 
 PInit(keys, consumers, active) ==
-    [now    |-> 0,
-     hist   |-> [k \in keys |-> << [t |-> 0, v |-> 0] >>],
-     clears |-> << >>,
-     ref    |-> [k \in keys |-> 0],
-     cons   |-> [c \in consumers |-> PFreshCons(keys, c \in active)]]
+    [ref    |-> PZero(keys),
+     anyClr |-> FALSE,
+     cons   |-> [c \in consumers |-> PCons(keys, c \in active, PZero(keys))]]
 
 PKeys(p) == DOMAIN p.ref
 
 \* ---- the lane -----------------------------------------------------------
+\* key k now holds v (v = 0: its entry was removed; a remove of an absent key is recorded too:
+\* the consumer may legitimately be told about it)
 PLaneUpd(p, k, v) ==
-    [p EXCEPT !.now = @ + 1, !.hist[k] = Append(@, [t |-> p.now + 1, v |-> v]), !.ref[k] = v]
+    [p EXCEPT !.ref[k] = v,
+              !.cons = [c \in DOMAIN p.cons |->
+                          IF p.cons[c].active THEN [p.cons[c] EXCEPT !.adm[k] = Append(@, v)]
+                          ELSE [p.cons[c] EXCEPT !.adm[k] = << v >>]]]
 
-\* (a remove of an absent key is recorded too: the consumer may legitimately be told about it)
 PLaneRem(p, k) == PLaneUpd(p, k, 0)
 
 PLaneClr(p) ==
-    [p EXCEPT !.now = @ + 1,
-              !.hist = [k \in PKeys(p) |-> Append(p.hist[k], [t |-> p.now + 1, v |-> 0])],
-              !.clears = Append(@, p.now + 1),
-              !.ref = [k \in PKeys(p) |-> 0]]
+    [p EXCEPT !.ref = PZero(PKeys(p)),
+              !.anyClr = TRUE,
+              !.cons = [c \in DOMAIN p.cons |->
+                          IF p.cons[c].active
+                          THEN [p.cons[c] EXCEPT !.adm = [k \in PKeys(p) |-> Append(p.cons[c].adm[k], CLR)],
+                                                 !.pend = @ + 1]
+                          ELSE [p.cons[c] EXCEPT !.adm = [k \in PKeys(p) |-> << 0 >>]]]]
 
 RECURSIVE PLaneRemAll(_, _)
 PLaneRemAll(p, ks) == IF ks = << >> THEN p ELSE PLaneRemAll(PLaneRem(p, Head(ks)), Tail(ks))
 
-\* a consumer (re)starts with an empty replica: it is told everything from now on
-PLink(p, c) == [p EXCEPT !.cons[c] = PFreshCons(PKeys(p), TRUE)]
+\* c subscribes with an empty replica: it is told everything from the current values on
+PLink(p, c) == [p EXCEPT !.cons[c].active = TRUE, !.cons[c].rep = PZero(PKeys(p)), !.cons[c].pend = 0]
 
 \* ---- a consumer receives one operation ------------------------------------
-PMatchIdx(p, c, k, v) == {i \in DOMAIN p.hist[k] : p.hist[k][i].t >= p.cons[c].seen[k] /\ p.hist[k][i].v = v}
 PMinOf(S) == CHOOSE x \in S : \A y \in S : x <= y
+PFrom(s, i) == SubSeq(s, i, Len(s))
+PClrCount(s) == Cardinality({i \in DOMAIN s : s[i] = CLR})
 
 PObsKeyed(p, c, k, v) ==
-    LET cand == PMatchIdx(p, c, k, v) IN
-    IF cand = {} THEN [p EXCEPT !.cons[c].ok = FALSE, !.cons[c].rep[k] = v]
-    ELSE [p EXCEPT !.cons[c].seen[k] = p.hist[k][PMinOf(cand)].t, !.cons[c].rep[k] = v]
+    LET a == p.cons[c].adm[k]
+        want == IF v = 0 THEN {0, CLR} ELSE {v}
+        cand == {i \in DOMAIN a : a[i] \in want}
+    IN IF cand = {} THEN [p EXCEPT !.cons[c].ok = FALSE, !.cons[c].rep[k] = v]
+       ELSE [p EXCEPT !.cons[c].adm[k] = PFrom(a, PMinOf(cand)), !.cons[c].rep[k] = v]
 
 PObsClr(p, c) ==
-    LET cand == {i \in DOMAIN p.clears : p.clears[i] >= p.cons[c].lastClr} IN
-    IF cand = {} THEN [p EXCEPT !.cons[c].ok = FALSE, !.cons[c].rep = [k \in PKeys(p) |-> 0]]
-    ELSE LET t == p.clears[PMinOf(cand)] IN
-         [p EXCEPT !.cons[c].lastClr = t,
-                   !.cons[c].seen = [k \in PKeys(p) |-> PMax(p.cons[c].seen[k], t)],
-                   !.cons[c].rep = [k \in PKeys(p) |-> 0]]
+    LET n == p.cons[c].pend IN
+    IF n = 0
+    THEN \* no clear outstanding: tolerated only as a repetition of an earlier lane clear
+         [p EXCEPT !.cons[c].ok = @ /\ p.anyClr, !.cons[c].rep = PZero(PKeys(p))]
+    ELSE \* the oldest outstanding clear: every key that has not already moved past it moves onto it
+         [p EXCEPT !.cons[c].pend = n - 1,
+                   !.cons[c].rep = PZero(PKeys(p)),
+                   !.cons[c].adm = [k \in PKeys(p) |->
+                        LET a == p.cons[c].adm[k] IN
+                        IF PClrCount(Tail(a)) = n
+                        THEN PFrom(a, PMinOf({i \in 2..Len(a) : a[i] = CLR}))
+                        ELSE a]]
 
 \* op = "upd" | "rem" | "clr"; k, v ignored where they do not apply.
 \* A key outside the lane's key space / a value of 0 for an update is rejected.
@@ -90,9 +111,13 @@ PObs(p, c, op, k, v) ==
     IF ~p.cons[c].active THEN [p EXCEPT !.cons[c].ok = FALSE]
     ELSE IF op = "clr" THEN PObsClr(p, c)
     ELSE IF k \notin PKeys(p) THEN [p EXCEPT !.cons[c].ok = FALSE]
-    ELSE IF op = "upd" THEN (IF v = 0 THEN [p EXCEPT !.cons[c].ok = FALSE] ELSE PObsKeyed(p, c, k, v))
+    ELSE IF op = "upd" THEN (IF v <= 0 THEN [p EXCEPT !.cons[c].ok = FALSE] ELSE PObsKeyed(p, c, k, v))
     ELSE IF op = "rem" THEN PObsKeyed(p, c, k, 0)
     ELSE [p EXCEPT !.cons[c].ok = FALSE]
+
+\* how far the slowest subscriber lags (state constraint for model checking)
+PLag(p) == LET S == {Len(p.cons[c].adm[k]) - 1 : c \in DOMAIN p.cons, k \in PKeys(p)} IN
+           CHOOSE x \in S : \A y \in S : y <= x
 
 \* ---- verdicts -----------------------------------------------------------------
 PAllOk(p) == \A c \in DOMAIN p.cons : p.cons[c].ok
